@@ -39,6 +39,7 @@ dependency returns a bare exit status (exit code 1), and a caller of a waiter on
 top-level execution wraps a `TaskRunError` again (201 even with `--exit-code`).
 -/
 namespace Props.C03
+open TaskModel.Sched.S2
 open TaskModel.Sched
 
 /-! ## fail-stop inside the task -/
